@@ -66,6 +66,10 @@ type Config struct {
 	// Returning false abandons the path (assumption contradicts facts).
 	AfterEvent func(c *Ctx, ev *Event) bool
 	Monitors   []Monitor
+	// ParamInit overrides the initial abstract value of root parameters (by index).
+	ParamInit map[int]*Term
+	// InitFacts may preload facts (assumptions about ParamInit terms).
+	InitFacts func(e *Engine, f *Facts)
 	// KeepFacts disables the pruning of facts about dead values (needed when
 	// the facts at the returns are the result, as in summary extraction).
 	KeepFacts bool
@@ -267,6 +271,12 @@ func (e *Engine) Run() {
 	fr := &Frame{fn: root, env: map[ssa.Value]*Term{}, ctx: ""}
 	for i, p := range root.Params {
 		fr.env[p] = Param(i, p.Name())
+		if t, ok := e.Cfg.ParamInit[i]; ok {
+			fr.env[p] = t
+		}
+	}
+	if e.Cfg.InitFacts != nil {
+		e.Cfg.InitFacts(e, st.facts)
 	}
 	if len(root.FreeVars) > 0 {
 		if e.Cfg.RootFree != nil {
